@@ -1,17 +1,2179 @@
-//! Engine `det` — placeholder (not written yet).
+//! Engine `det` (C13): the same `(dump, symbols)` pair is processed many times in-process — fresh
+//! `Symbolizer`, fresh hash maps (fresh `RandomState`s) — under several supplier completion schedules
+//! and three executors; `print_json(false)`, `print_json(true)`, `print`, `print_brief` bytes must be
+//! IDENTICAL across all runs of one pair. The small models of `MdModel.Det` are driven with inputs
+//! extracted from the real run (the REAL iteration order of the limits map and of the validity
+//! set, the REAL completion order of the supplier calls) and compared with what the real
+//! renderer / walker produced.
+//!
+//! case lines
+//!   `det run f:<0|1|2> exc:<0|1> lim:<n>.<seed> alias:<0..4> mods:<path>=<ok|nf|pe>[@<g>],.. thr:<m.m.m;m.m;..>
+//!            sched:<d.d.d|d.d.d|..> runs:<N> x:<subset of BRT> rs:<seed> evil:<0|1|2>`
+//!       f       ProcessorOptions: 0 default, 1 stable_all, 2 unstable_all
+//!       exc     add an exception stream (SIGSEGV on the first thread)
+//!       lim     `/proc/<pid>/limits` stream with n limit lines (names/values from the seed); 0: none
+//!       alias   STACK CFI flavour of the modules that have symbols: 0 `x29:` only; 1 `fp:` and
+//!               `x29:` (aliases of one register) with different rules; 2 `fp:` + `x29: .undef`;
+//!               3 like 1 plus a delta record overriding `fp:`; 4: an AMD64 dump instead (`$rbp:` … labels,
+//!               no register aliases on that architecture; code bytes at the crashing instruction)
+//!       mods    module list (ARM64 Linux dump); path = code_file; what the supplier answers; `@g`: the
+//!               module carries the PDB70 CodeView record and timestamp of group g (modules of one
+//!               group share debug file, debug id and code id but not the code file)
+//!       evil    evil JSON: 0 none; 1 ModuleSignatureInfo with every module under one certificate;
+//!               2 one module listed under three certificates
+//!       thr     one call chain per thread: module index of every frame, innermost first
+//!       sched   supplier schedules: per module the number of suspensions before it answers; the
+//!               first table is the base schedule
+//!       runs    repetitions of (executor B, base schedule)
+//!       x       executors every schedule is run under: B hand-rolled poll-to-completion,
+//!               R randomised poller (seed rs: releases waiting supplier calls in random order,
+//!               spurious polls), T multi-thread tokio runtime (supplier suspends in spawned tasks)
+//!   `det file d:<testdata dump> f:<0|1|2> k:<max suspensions> runs:<N> x:<subset of BRT> rs:<seed>`
+//!       a dump of the repository's testdata with the repository's symbol directory behind the same
+//!       gates (oracle only, no model)
+//!   `det cfi init:<r=v+|r=v-,..|-> rules:<hexlabel>=<v|->,..|-> sh:<seed>`
+//!       direct call of `walk_with_stack_cfi` (exported by the `fuzz` feature) with a twin of
+//!       `CfiStackWalker` built on the real `CONTEXT_ARM64`; the rules are rendered into INIT and
+//!       delta records in an order chosen by `sh`; init = caller registers forwarded from the callee
+
 use crate::common::*;
+use async_trait::async_trait;
+use breakpad_symbols::fuzzing_private_exports::walk_with_stack_cfi;
+use breakpad_symbols::{
+    CfiRules, FileError, FileKind, FrameWalker, LocateSymbolsResult, Module, SymbolError, SymbolFile,
+    SymbolSupplier,
+};
+use minidump::format::CONTEXT_ARM64;
+use minidump::{CpuContext, Minidump, MinidumpContextValidity};
+use minidump_processor::{Limit, ProcessState, ProcessorOptions};
+use minidump_synth as synth;
+use std::cell::RefCell;
+use std::collections::{BTreeMap, BTreeSet, HashSet};
+use std::future::Future;
+use std::path::PathBuf;
+use std::pin::Pin;
+use std::sync::atomic::{AtomicBool, Ordering};
+use std::sync::{Arc, Mutex, OnceLock};
+use std::task::{Context, Poll, Wake, Waker};
+use test_assembler::{Endian, Section};
 
 pub struct Det;
+
+const LE: Endian = Endian::Little;
+
+// ------------------------------------------------------------------------------------ the case
+
+#[derive(Clone, Copy, PartialEq, Eq, Debug)]
+enum Res {
+    Ok,
+    Nf,
+    Pe,
+}
+impl Res {
+    fn s(self) -> &'static str {
+        match self {
+            Res::Ok => "ok",
+            Res::Nf => "nf",
+            Res::Pe => "pe",
+        }
+    }
+}
+
+#[derive(Clone, Debug)]
+struct RunCase {
+    feat: u32,
+    exc: bool,
+    lim_n: u32,
+    lim_seed: u64,
+    alias: u32,
+    mods: Vec<(String, Res)>,
+    /// per module: CodeView group — modules of one group carry the same PDB70 record (debug file,
+    /// debug id) and the same timestamp (hence code id) although their code files differ
+    cv: Vec<Option<u32>>,
+    thr: Vec<Vec<usize>>,
+    sched: Vec<Vec<u32>>,
+    runs: u32,
+    execs: String,
+    rs: u64,
+    /// 0: no evil JSON; 1: ModuleSignatureInfo, every module under one certificate; 2: one module
+    /// listed under two certificates
+    evil: u32,
+}
+
+#[derive(Clone, Debug)]
+struct CfiCase {
+    init: Vec<(u32, u64, bool)>,
+    rules: Vec<(String, Option<u64>)>,
+    sh: u64,
+}
+
+/// a dump of the repository's testdata with the repository's symbol directory
+#[derive(Clone, Debug)]
+struct FileCase {
+    name: String,
+    feat: u32,
+    /// every lookup is suspended `fnv(code_file, seed_i) % (k+1)` times under schedule i
+    k: u32,
+    runs: u32,
+    execs: String,
+    rs: u64,
+}
+
+enum Case {
+    Run(RunCase),
+    Cfi(CfiCase),
+    File(FileCase),
+}
+
+fn field<'a>(f: &'a str, pfx: &str) -> Option<&'a str> {
+    f.strip_prefix(pfx)
+}
+
+fn parse_case(case: &str) -> Option<Case> {
+    let f: Vec<&str> = case.split(' ').filter(|s| !s.is_empty()).collect();
+    if f.len() < 2 || f[0] != "det" {
+        return None;
+    }
+    match f[1] {
+        "run" => {
+            if f.len() != 13 {
+                return None;
+            }
+            let feat: u32 = field(f[2], "f:")?.parse().ok()?;
+            let exc = match field(f[3], "exc:")? {
+                "0" => false,
+                "1" => true,
+                _ => return None,
+            };
+            let (n, s) = field(f[4], "lim:")?.split_once('.')?;
+            let alias: u32 = field(f[5], "alias:")?.parse().ok()?;
+            let mut mods = vec![];
+            let mut cv = vec![];
+            for m in field(f[6], "mods:")?.split(',') {
+                let (p, r) = m.rsplit_once('=')?;
+                let (r, g) = match r.split_once('@') {
+                    Some((r, g)) => (r, Some(g.parse::<u32>().ok().filter(|g| *g < 100)?)),
+                    None => (r, None),
+                };
+                cv.push(g);
+                let r = match r {
+                    "ok" => Res::Ok,
+                    "nf" => Res::Nf,
+                    "pe" => Res::Pe,
+                    _ => return None,
+                };
+                if p.is_empty() {
+                    return None;
+                }
+                mods.push((p.to_string(), r));
+            }
+            let mut thr = vec![];
+            for t in field(f[7], "thr:")?.split(';') {
+                let chain = t.split('.').map(|x| x.parse().ok()).collect::<Option<Vec<usize>>>()?;
+                if chain.is_empty() || chain.iter().any(|m| *m >= mods.len()) {
+                    return None;
+                }
+                thr.push(chain);
+            }
+            let mut sched = vec![];
+            for t in field(f[8], "sched:")?.split('|') {
+                let tab = t.split('.').map(|x| x.parse().ok()).collect::<Option<Vec<u32>>>()?;
+                if tab.len() != mods.len() {
+                    return None;
+                }
+                sched.push(tab);
+            }
+            let runs: u32 = field(f[9], "runs:")?.parse().ok()?;
+            let execs = field(f[10], "x:")?.to_string();
+            if execs.chars().any(|c| !"BRT".contains(c)) {
+                return None;
+            }
+            let rs: u64 = field(f[11], "rs:")?.parse().ok()?;
+            let evil: u32 = field(f[12], "evil:")?.parse().ok()?;
+            if feat > 2 || alias > 4 || evil > 2 || mods.len() > 64 || thr.len() > 200 || sched.is_empty() || runs == 0 {
+                return None;
+            }
+            Some(Case::Run(RunCase {
+                feat,
+                exc,
+                lim_n: n.parse().ok()?,
+                lim_seed: s.parse().ok()?,
+                alias,
+                mods,
+                cv,
+                thr,
+                sched,
+                runs,
+                execs,
+                rs,
+                evil,
+            }))
+        }
+        "file" => {
+            if f.len() != 8 {
+                return None;
+            }
+            let name = field(f[2], "d:")?.to_string();
+            if !FILE_DUMPS.contains(&name.as_str()) {
+                return None;
+            }
+            let feat: u32 = field(f[3], "f:")?.parse().ok()?;
+            let execs = field(f[6], "x:")?.to_string();
+            if feat > 2 || execs.chars().any(|c| !"BRT".contains(c)) {
+                return None;
+            }
+            Some(Case::File(FileCase {
+                name,
+                feat,
+                k: field(f[4], "k:")?.parse().ok()?,
+                runs: field(f[5], "runs:")?.parse().ok()?,
+                execs,
+                rs: field(f[7], "rs:")?.parse().ok()?,
+            }))
+        }
+        "cfi" => {
+            if f.len() != 5 {
+                return None;
+            }
+            let mut init = vec![];
+            let i = field(f[2], "init:")?;
+            if i != "-" {
+                for e in i.split(',') {
+                    let (r, v) = e.split_once('=')?;
+                    let valid = match v.chars().last()? {
+                        '+' => true,
+                        '-' => false,
+                        _ => return None,
+                    };
+                    let r: u32 = r.parse().ok()?;
+                    if r > 32 {
+                        return None;
+                    }
+                    init.push((r, v[..v.len() - 1].parse().ok()?, valid));
+                }
+            }
+            let mut rules = vec![];
+            let r = field(f[3], "rules:")?;
+            if r != "-" {
+                for e in r.split(',') {
+                    let (l, v) = e.split_once('=')?;
+                    let l = String::from_utf8(unhex(l)?).ok()?;
+                    if l.is_empty()
+                        || l == ".cfa"
+                        || l == ".ra"
+                        || l.starts_with('$')
+                        || l.ends_with(':')
+                        || l.chars().any(|c| c.is_ascii_whitespace() || !c.is_ascii_graphic())
+                    {
+                        return None;
+                    }
+                    let v = if v == "-" { None } else { Some(v.parse().ok()?) };
+                    rules.push((l, v));
+                }
+            }
+            let labels: BTreeSet<&str> = rules.iter().map(|(l, _)| l.as_str()).collect();
+            if labels.len() != rules.len() {
+                return None;
+            }
+            Some(Case::Cfi(CfiCase { init, rules, sh: field(f[4], "sh:")?.parse().ok()? }))
+        }
+        _ => None,
+    }
+}
+
+fn render_run(c: &RunCase) -> String {
+    format!(
+        "det run f:{} exc:{} lim:{}.{} alias:{} mods:{} thr:{} sched:{} runs:{} x:{} rs:{} evil:{}",
+        c.feat,
+        c.exc as u32,
+        c.lim_n,
+        c.lim_seed,
+        c.alias,
+        c.mods
+            .iter()
+            .zip(c.cv.iter())
+            .map(|((p, r), g)| format!("{p}={}{}", r.s(), g.map(|g| format!("@{g}")).unwrap_or_default()))
+            .collect::<Vec<_>>()
+            .join(","),
+        c.thr
+            .iter()
+            .map(|t| t.iter().map(|m| m.to_string()).collect::<Vec<_>>().join("."))
+            .collect::<Vec<_>>()
+            .join(";"),
+        c.sched
+            .iter()
+            .map(|t| t.iter().map(|m| m.to_string()).collect::<Vec<_>>().join("."))
+            .collect::<Vec<_>>()
+            .join("|"),
+        c.runs,
+        c.execs,
+        c.rs,
+        c.evil
+    )
+}
+
+const FILE_DUMPS: &[&str] = &["test.dmp", "linux-mini.dmp", "simple-crashpad.dmp", "pipeline-inlines-macos-segv.dmp", "invalid-parameter.dmp"];
+
+fn render_file(c: &FileCase) -> String {
+    format!("det file d:{} f:{} k:{} runs:{} x:{} rs:{}", c.name, c.feat, c.k, c.runs, c.execs, c.rs)
+}
+
+fn render_cfi(c: &CfiCase) -> String {
+    let init = if c.init.is_empty() {
+        "-".to_string()
+    } else {
+        c.init.iter().map(|(r, v, ok)| format!("{r}={v}{}", if *ok { '+' } else { '-' })).collect::<Vec<_>>().join(",")
+    };
+    let rules = if c.rules.is_empty() {
+        "-".to_string()
+    } else {
+        c.rules
+            .iter()
+            .map(|(l, v)| format!("{}={}", hex(l.as_bytes()), v.map(|v| v.to_string()).unwrap_or("-".into())))
+            .collect::<Vec<_>>()
+            .join(",")
+    };
+    format!("det cfi init:{init} rules:{rules} sh:{}", c.sh)
+}
+
+// ------------------------------------------------------------------------- the (dump, symbols) pair
+
+const LIMIT_NAMES: &[&str] = &[
+    "Max cpu time",
+    "Max file size",
+    "Max data size",
+    "Max stack size",
+    "Max core file size",
+    "Max resident set",
+    "Max processes",
+    "Max open files",
+    "Max locked memory",
+    "Max address space",
+    "Max file locks",
+    "Max pending signals",
+    "Max msgqueue size",
+    "Max nice priority",
+    "Max realtime priority",
+    "Max realtime timeout",
+];
+const LIMIT_UNITS: &[&str] = &["seconds", "bytes", "processes", "files", "locks", "signals", "us", ""];
+
+fn limits_text(n: u32, seed: u64) -> String {
+    let mut rng = Rng::new(seed ^ 0x11a1);
+    let mut s = String::from("Limit                     Soft Limit           Hard Limit           Units     \n");
+    let mut names: Vec<String> = LIMIT_NAMES.iter().map(|x| x.to_string()).collect();
+    // shuffle
+    for i in (1..names.len()).rev() {
+        let j = rng.below(i as u64 + 1) as usize;
+        names.swap(i, j);
+    }
+    for i in 0..n as usize {
+        let name = if i < names.len() { names[i].clone() } else { format!("Max verif thing {i}") };
+        let val = |rng: &mut Rng| -> String {
+            match rng.below(4) {
+                0 => "unlimited".to_string(),
+                1 => rng.below(100_000).to_string(),
+                2 => (rng.next() >> rng.below(40)).to_string(),
+                _ => "8388608".to_string(),
+            }
+        };
+        let soft = val(&mut rng);
+        let hard = val(&mut rng);
+        let unit = *rng.pick(LIMIT_UNITS);
+        s.push_str(&format!("{name:<26}{soft:<21}{hard:<21}{unit:<10}\n"));
+        // now and then the same name again (the later line wins in the map)
+        if rng.chance(1, 12) {
+            s.push_str(&format!("{name:<26}{:<21}{:<21}{unit:<10}\n", "1", "2"));
+        }
+    }
+    s
+}
+
+fn mod_base(i: usize) -> u64 {
+    0x1000_0000 + (i as u64) * 0x10_0000
+}
+const MOD_SIZE: u32 = 0x1_0000;
+const UNLOADED_BASE: u64 = 0x2000_0000;
+fn stack_base(t: usize) -> u64 {
+    0x7000_0000 + (t as u64) * 0x1_0000
+}
+fn frame_off(j: usize) -> u64 {
+    0x1000 + ((j % 12) as u64) * 0x200 + 0x40
+}
+fn tid(t: usize) -> u32 {
+    1000 + 7 * t as u32
+}
+
+fn symbol_text(c: &RunCase, i: usize) -> String {
+    let leaf = leaf_of(&c.mods[i].0);
+    // modules of one CodeView group are copies of one binary: same symbol file (up to the MODULE line's name)
+    let i = match c.cv[i] {
+        Some(g) => 100 + g as usize,
+        None => i,
+    };
+    let mut s = format!("MODULE Linux arm64 {:032X}0 {leaf}\n", 0xabcd_0000u64 + i as u64);
+    s.push_str(&format!("FILE 0 src/m{i}.c\nFILE 1 src/inl{i}.h\n"));
+    s.push_str(&format!("INLINE_ORIGIN 0 inlined_{i}\n"));
+    for k in 0..14u64 {
+        let a = 0x1000 + k * 0x200;
+        s.push_str(&format!("FUNC {a:x} 200 0 fn{i}_{k}(int, char)\n"));
+        if k % 3 == 0 {
+            s.push_str(&format!("INLINE 0 {} 1 0 {:x} 20\n", 40 + k, a + 0x30));
+        }
+        s.push_str(&format!("{a:x} 100 {} 0\n{:x} 100 {} 0\n", 10 + k, a + 0x100, 20 + k));
+    }
+    s.push_str(&format!("PUBLIC 8000 0 pub{i}\n"));
+    if c.alias == 4 {
+        s = s.replace("MODULE Linux arm64", "MODULE Linux x86_64");
+        s.push_str("STACK CFI INIT 1000 7000 .cfa: $rsp 32 + $r12: $rbx 1 + $rbp: .cfa -16 + ^ .ra: .cfa -8 + ^ $rbx: .cfa -32 + ^ $r14: .cfa $r13: .undef\n");
+        s.push_str("STACK CFI 2000 $r15: .cfa 8 - $r14: 5\n");
+        return s;
+    }
+    let x29 = match c.alias {
+        2 => "x29: .undef".to_string(),
+        _ => "x29: .cfa -16 + ^".to_string(),
+    };
+    let fp = if c.alias >= 1 { " fp: .cfa -24 + ^" } else { "" };
+    // the labels are deliberately not in name order, and x19..x22 make the rule map big enough for
+    // its hash order to vary
+    s.push_str(&format!(
+        "STACK CFI INIT 1000 7000 .cfa: sp 32 + x21: x19 1 + {x29} .ra: .cfa -8 + ^ x19: .cfa -32 + ^{fp} x20: .cfa x22: .undef\n"
+    ));
+    if c.alias == 3 {
+        s.push_str("STACK CFI 1400 fp: .cfa -32 + ^ x23: 77\n");
+    }
+    s.push_str("STACK CFI 2000 x24: .cfa 8 - x20: 5\n");
+    s
+}
+
+fn leaf_of(path: &str) -> &str {
+    path.rsplit(['/', '\\']).next().unwrap_or(path)
+}
+
+fn arm64_ctx(pc: u64, sp: u64, fp: u64, t: usize) -> Section {
+    let mut s = Section::with_endian(LE).D32(0x40001f).D32(0);
+    for r in 0..31u64 {
+        let v = match r {
+            29 => fp,
+            30 => 0,
+            19..=28 => 0x1900 + r * 0x10 + t as u64,
+            _ => r + 1,
+        };
+        s = s.D64(v);
+    }
+    s = s.D64(sp).D64(pc);
+    s = s.append_repeated(0, 16 * 32).D32(0).D32(0);
+    s = s.append_repeated(0, 4 * 8).append_repeated(0, 8 * 8).append_repeated(0, 4 * 2).append_repeated(0, 8 * 2);
+    s
+}
+
+fn amd64_ctx(rip: u64, rsp: u64, rbp: u64, t: usize) -> Section {
+    let mut s = Section::with_endian(LE)
+        .append_repeated(0, 8 * 6)
+        .D32(0x10001f)
+        .D32(0)
+        .append_repeated(0, 2 * 6)
+        .D32(0)
+        .append_repeated(0, 8 * 6);
+    // rax rcx rdx rbx
+    s = s.D64(1).D64(2).D64(3).D64(0x10 + t as u64);
+    s = s.D64(rsp).D64(rbp);
+    // rsi rdi r8..r15
+    for r in 0..10u64 {
+        s = s.D64(0x1200 + r * 0x10 + t as u64);
+    }
+    s = s.D64(rip);
+    s.append_repeated(0, 512).append_repeated(0, 16 * 26).append_repeated(0, 8 * 6)
+}
+
+fn build_dump(c: &RunCase) -> Vec<u8> {
+    let amd64 = c.alias == 4;
+    let mut dump = synth::SynthMinidump::with_endian(LE).add_system_info(
+        synth::SystemInfo::new(LE).set_processor_architecture(if amd64 { 9 } else { 12 }).set_platform_id(0x8201),
+    );
+    for (i, (path, _)) in c.mods.iter().enumerate() {
+        let name = synth::DumpString::new(path, LE);
+        match c.cv[i] {
+            None => {
+                dump = dump
+                    .add_module(synth::Module::new(LE, mod_base(i), MOD_SIZE, &name, 0x5000_0000 + i as u32, 0, None))
+                    .add(name);
+            }
+            Some(g) => {
+                // PDB70 record: same GUID, age and pdb name for the whole group
+                let cv = Section::with_endian(LE)
+                    .D32(0x5344_5352)
+                    .D32(0xabcd_0000 + g)
+                    .D16(0xf00d)
+                    .D16(0xbeef)
+                    .append_bytes(b"\x01\x02\x03\x04\x05\x06\x07\x08")
+                    .D32(1)
+                    .append_bytes(format!("grp{g}.pdb\0").as_bytes());
+                dump = dump
+                    .add_module(synth::Module::new(LE, mod_base(i), MOD_SIZE, &name, 0x6000_0000 + g, 0, None).cv_record(&cv))
+                    .add(name)
+                    .add(cv);
+            }
+        }
+    }
+    // unloaded modules: overlapping ranges, repeated names — every thread's outermost return address
+    // lands in several of them (JSON `frames[*].unloaded_modules`: names and offsets)
+    for (k, (name, off)) in [("old1.so", 0u64), ("zold.so", 0x1000), ("old1.so", 0x2000), ("aold.so", 0x3000), ("mold.so", 0x4000), ("old2.so", 0x4800), ("bold.so", 0x0800)]
+        .iter()
+        .enumerate()
+    {
+        let n = synth::DumpString::new(name, LE);
+        dump = dump
+            .add_unloaded_module(synth::UnloadedModule::new(LE, UNLOADED_BASE + off, 0x8000, &n, 0x4000_0000 + k as u32, 0))
+            .add(n);
+    }
+    for (t, chain) in c.thr.iter().enumerate() {
+        let base = stack_base(t);
+        let depth = chain.len();
+        let mut stack = Section::with_endian(LE);
+        for j in 0..depth {
+            let cfa = base + 32 * (j as u64 + 1);
+            let ret = if j + 1 < depth { mod_base(chain[j + 1]) + frame_off(j + 1) + 4 } else { UNLOADED_BASE + 0x5000 + 0x10 * (t as u64 % 64) };
+            stack = stack
+                .D64(0x5a00 + (t as u64) * 0x100 + j as u64) // x19 save (cfa-32)
+                .D64(0xA000_0000 + (t as u64) * 0x100 + j as u64) // `fp:` slot (cfa-24)
+                .D64(cfa + 16) // `x29:` slot (cfa-16): the caller's frame record
+                .D64(ret); // return address (cfa-8)
+        }
+        stack = stack.append_repeated(0, 64);
+        let mem = synth::Memory::with_section(stack, base);
+        let ctx = if amd64 {
+            amd64_ctx(mod_base(chain[0]) + frame_off(0), base, base + 16, t)
+        } else {
+            arm64_ctx(mod_base(chain[0]) + frame_off(0), base, base + 16, t)
+        };
+        let thread = synth::Thread::new(LE, tid(t), &mem, &ctx);
+        dump = dump.add_thread(thread).add(ctx).add_memory(mem);
+        if t % 2 == 0 {
+            let n = synth::DumpString::new(&format!("worker-{t}"), LE);
+            dump = dump.add_thread_name(synth::ThreadName::new(LE, tid(t), Some(&n))).add(n);
+        }
+    }
+    if c.lim_n > 0 {
+        dump = dump.set_linux_proc_limits(limits_text(c.lim_n, c.lim_seed).as_bytes());
+    }
+    dump = dump
+        .set_linux_proc_status(b"Name:\tverif\nPid:\t4242\n")
+        .set_linux_lsb_release(b"DISTRIB_ID=Verif\nDISTRIB_RELEASE=1.0\nDISTRIB_CODENAME=det\nDISTRIB_DESCRIPTION=\"Verif 1.0\"\n")
+        .set_linux_cpu_info(b"processor\t: 0\nmicrocode\t: 0x1e\n");
+    if amd64 {
+        // code at the first thread's instruction pointer: `mov rax, [rbx]` then nops (crash analysis
+        // disassembles it), and the process memory map
+        let code = Section::with_endian(LE).append_bytes(&[0x48, 0x8b, 0x03]).append_repeated(0x90, 29);
+        dump = dump.add_memory(synth::Memory::with_section(code, mod_base(c.thr[0][0]) + frame_off(0)));
+        let mut maps = String::new();
+        for (i, (path, _)) in c.mods.iter().enumerate() {
+            maps.push_str(&format!("{:x}-{:x} r-xp 00000000 08:01 {} {}\n", mod_base(i), mod_base(i) + MOD_SIZE as u64, 100 + i, path));
+        }
+        for t in 0..c.thr.len() {
+            maps.push_str(&format!("{:x}-{:x} rw-p 00000000 00:00 0 [stack:{}]\n", stack_base(t), stack_base(t) + 0x1000, tid(t)));
+        }
+        dump = dump.set_linux_maps(maps.as_bytes());
+    }
+    if c.exc {
+        let mut e = synth::Exception::new(LE);
+        e.thread_id = tid(0);
+        e.exception_record.exception_code = 11; // SIGSEGV
+        e.exception_record.exception_address = 0x10;
+        dump = dump.add_exception(e);
+    }
+    dump.finish().expect("synth dump")
+}
+
+/// the "evil JSON" (`ProcessorOptions::evil_json`): certificate -> signed modules
+fn evil_text(c: &RunCase) -> String {
+    let obj: serde_json::Map<String, serde_json::Value> =
+        evil_certs(c).into_iter().map(|(k, v)| (k, serde_json::Value::from(v))).collect();
+    // the real file carries the object as a STRING holding JSON
+    serde_json::json!({ "ModuleSignatureInfo": serde_json::Value::Object(obj).to_string(), "CPUMicrocodeVersion": "0x2f" }).to_string()
+}
+
+// -------------------------------------------------------------------------------- the supplier
+
+/// how a supplier call suspends
+#[derive(Clone)]
+enum GateMode {
+    /// returns `Pending` k times, waking itself every time (like `yield_now`)
+    Auto,
+    /// returns `Pending` until the executor has released it k times
+    Ctl(Arc<Ctl>),
+    /// awaits a task spawned on the tokio runtime that yields k times
+    Spawn,
+}
+
+#[derive(Default)]
+struct Ctl {
+    /// tickets waiting for a release, with the waker to fire
+    waiting: Mutex<Vec<(usize, Waker)>>,
+    released: Mutex<Vec<usize>>,
+    next: Mutex<usize>,
+}
+
+struct Gate {
+    remaining: u32,
+    ctl: Option<Arc<Ctl>>,
+    ticket: usize,
+}
+impl Future for Gate {
+    type Output = ();
+    fn poll(mut self: Pin<&mut Self>, cx: &mut Context<'_>) -> Poll<()> {
+        if self.remaining == 0 {
+            return Poll::Ready(());
+        }
+        match self.ctl.clone() {
+            None => {
+                self.remaining -= 1;
+                cx.waker().wake_by_ref();
+                Poll::Pending
+            }
+            Some(ctl) => {
+                let mut rel = ctl.released.lock().unwrap();
+                if let Some(p) = rel.iter().position(|t| *t == self.ticket) {
+                    rel.swap_remove(p);
+                    self.remaining -= 1;
+                    if self.remaining == 0 {
+                        return Poll::Ready(());
+                    }
+                }
+                drop(rel);
+                let mut w = ctl.waiting.lock().unwrap();
+                w.retain(|(t, _)| *t != self.ticket);
+                w.push((self.ticket, cx.waker().clone()));
+                Poll::Pending
+            }
+        }
+    }
+}
+
+/// suspend the calling supplier `k` times in the way `mode` says
+async fn suspend(mode: &GateMode, k: u32) {
+    match mode {
+        GateMode::Auto => Gate { remaining: k, ctl: None, ticket: 0 }.await,
+        GateMode::Ctl(ctl) => {
+            let ticket = {
+                let mut n = ctl.next.lock().unwrap();
+                *n += 1;
+                *n
+            };
+            Gate { remaining: k, ctl: Some(ctl.clone()), ticket }.await
+        }
+        GateMode::Spawn => {
+            let h = tokio::spawn(async move {
+                for _ in 0..k {
+                    tokio::task::yield_now().await;
+                }
+                if k % 3 == 2 {
+                    tokio::time::sleep(std::time::Duration::from_micros(50 * k as u64)).await;
+                }
+            });
+            let _ = h.await;
+        }
+    }
+}
+
+/// the repository's `SimpleSymbolSupplier` behind a gate: lookups complete in an order decided by
+/// the schedule seed
+struct DelaySup {
+    inner: breakpad_symbols::SimpleSymbolSupplier,
+    k: u32,
+    seed: u64,
+    mode: GateMode,
+    done: Arc<Mutex<Vec<String>>>,
+}
+
+#[async_trait]
+impl SymbolSupplier for DelaySup {
+    async fn locate_symbols(&self, module: &(dyn Module + Sync)) -> Result<LocateSymbolsResult, SymbolError> {
+        let name = module.code_file().to_string();
+        let d = (fnv64(name.as_bytes()) ^ self.seed.wrapping_mul(0x9E37_79B9_7F4A_7C15)) >> 17;
+        suspend(&self.mode, (d % (self.k as u64 + 1)) as u32).await;
+        let r = self.inner.locate_symbols(module).await;
+        self.done.lock().unwrap().push(leaf_of(&name).to_string());
+        r
+    }
+    async fn locate_file(&self, module: &(dyn Module + Sync), file_kind: FileKind) -> Result<PathBuf, FileError> {
+        self.inner.locate_file(module, file_kind).await
+    }
+}
+
+struct Sup {
+    /// code_file -> module index
+    index: BTreeMap<String, usize>,
+    res: Vec<Res>,
+    text: Arc<Vec<String>>,
+    delays: Vec<u32>,
+    mode: GateMode,
+    /// module indices in the order the supplier calls were started / completed
+    started: Arc<Mutex<Vec<usize>>>,
+    done: Arc<Mutex<Vec<usize>>>,
+}
+
+#[async_trait]
+impl SymbolSupplier for Sup {
+    async fn locate_symbols(&self, module: &(dyn Module + Sync)) -> Result<LocateSymbolsResult, SymbolError> {
+        let i = *self.index.get(module.code_file().as_ref()).expect("det: unknown module");
+        self.started.lock().unwrap().push(i);
+        let k = self.delays[i];
+        suspend(&self.mode, k).await;
+        self.done.lock().unwrap().push(i);
+        match self.res[i] {
+            Res::Ok => {
+                let mut symbols = SymbolFile::from_bytes(self.text[i].as_bytes())?;
+                // (a real HTTP supplier's URL contains the debug id, so it differs between two same-leaf
+                // modules even when both are found; here it is a function of the leaf name only, so that
+                // "same leaf, same outcome" pairs have equal statistics)
+                let leaf = leaf_of(module.code_file().as_ref()).to_string();
+                symbols.url = Some(format!("https://symbols.example/{leaf}/{leaf}.sym"));
+                Ok(LocateSymbolsResult { symbols, extra_debug_info: None })
+            }
+            Res::Nf => Err(SymbolError::NotFound),
+            Res::Pe => match SymbolFile::from_bytes(b"MODULE Linux arm64 0 m\nthis is not a record\n") {
+                Err(e) => Err(e),
+                Ok(_) => panic!("det: garbage parsed"),
+            },
+        }
+    }
+    async fn locate_file(&self, _module: &(dyn Module + Sync), _file_kind: FileKind) -> Result<PathBuf, FileError> {
+        Err(FileError::NotFound)
+    }
+}
+
+// ------------------------------------------------------------------------------- the executors
+
+struct Flag(AtomicBool);
+impl Wake for Flag {
+    fn wake(self: Arc<Self>) {
+        self.0.store(true, Ordering::SeqCst);
+    }
+    fn wake_by_ref(self: &Arc<Self>) {
+        self.0.store(true, Ordering::SeqCst);
+    }
+}
+
+const POLL_LIMIT: usize = 2_000_000;
+
+/// B: poll the one future until it is ready
+fn block_on_simple<F: Future>(fut: F) -> Result<F::Output, String> {
+    let mut fut = std::pin::pin!(fut);
+    let flag = Arc::new(Flag(AtomicBool::new(true)));
+    let waker = Waker::from(flag.clone());
+    let mut cx = Context::from_waker(&waker);
+    for _ in 0..POLL_LIMIT {
+        if let Poll::Ready(v) = fut.as_mut().poll(&mut cx) {
+            return Ok(v);
+        }
+        if !flag.0.swap(false, Ordering::SeqCst) {
+            return Err("pending without a wake-up (executor B)".into());
+        }
+    }
+    Err("poll limit reached (executor B)".into())
+}
+
+/// R: poll; between polls release waiting supplier calls in random order (sometimes two, sometimes
+/// none: a spurious poll)
+fn block_on_random<F: Future>(fut: F, ctl: &Arc<Ctl>, rng: &mut Rng) -> Result<F::Output, String> {
+    let mut fut = std::pin::pin!(fut);
+    let flag = Arc::new(Flag(AtomicBool::new(true)));
+    let waker = Waker::from(flag.clone());
+    let mut cx = Context::from_waker(&waker);
+    let mut idle = 0;
+    for _ in 0..POLL_LIMIT {
+        if let Poll::Ready(v) = fut.as_mut().poll(&mut cx) {
+            return Ok(v);
+        }
+        let mut w = ctl.waiting.lock().unwrap();
+        if w.is_empty() {
+            drop(w);
+            idle += 1;
+            if idle > 1000 && !flag.0.load(Ordering::SeqCst) {
+                return Err("pending, nothing to release and no wake-up (executor R)".into());
+            }
+            continue;
+        }
+        idle = 0;
+        let n = match rng.below(8) {
+            0 => 0,
+            1 | 2 => 2,
+            _ => 1,
+        };
+        for _ in 0..n {
+            if w.is_empty() {
+                break;
+            }
+            let pick = rng.below(w.len() as u64) as usize;
+            let (t, wk) = w.swap_remove(pick);
+            ctl.released.lock().unwrap().push(t);
+            wk.wake();
+        }
+    }
+    Err("poll limit reached (executor R)".into())
+}
+
+fn tokio_rt() -> &'static tokio::runtime::Runtime {
+    static RT: OnceLock<tokio::runtime::Runtime> = OnceLock::new();
+    RT.get_or_init(|| {
+        tokio::runtime::Builder::new_multi_thread().worker_threads(4).enable_all().build().expect("tokio runtime")
+    })
+}
+
+// ------------------------------------------------------------------------------------ one run
+
+#[derive(Default)]
+struct RunOut {
+    /// print_json(false), print_json(true), print, print_brief
+    bytes: [Vec<u8>; 4],
+    done: Vec<usize>,
+    started: Vec<usize>,
+    err: Option<String>,
+    state: Option<ProcessState>,
+}
+
+fn run_once(bytes: &[u8], c: &RunCase, text: &Arc<Vec<String>>, evil: Option<&std::path::Path>, delays: &[u32], exec: char, seed: u64, keep_state: bool) -> RunOut {
+    let mut out = RunOut::default();
+    let dump = match Minidump::read(bytes) {
+        Ok(d) => d,
+        Err(e) => {
+            out.err = Some(format!("read: {e}"));
+            return out;
+        }
+    };
+    let ctl = Arc::new(Ctl::default());
+    let started = Arc::new(Mutex::new(vec![]));
+    let done = Arc::new(Mutex::new(vec![]));
+    let sup = Sup {
+        index: c.mods.iter().enumerate().map(|(i, (p, _))| (p.clone(), i)).collect(),
+        res: c.mods.iter().map(|(_, r)| *r).collect(),
+        text: text.clone(),
+        delays: delays.to_vec(),
+        mode: match exec {
+            'R' => GateMode::Ctl(ctl.clone()),
+            'T' => GateMode::Spawn,
+            _ => GateMode::Auto,
+        },
+        started: started.clone(),
+        done: done.clone(),
+    };
+    let provider = minidump_unwind::Symbolizer::new(sup);
+    let mut options = match c.feat {
+        0 => ProcessorOptions::default(),
+        1 => ProcessorOptions::stable_all(),
+        _ => ProcessorOptions::unstable_all(),
+    };
+    options.evil_json = evil;
+    let fut = minidump_processor::process_minidump_with_options(&dump, &provider, options);
+    let state = match exec {
+        'R' => {
+            let mut rng = Rng::new(seed);
+            block_on_random(fut, &ctl, &mut rng)
+        }
+        'T' => tokio_rt()
+            .block_on(async { tokio::time::timeout(std::time::Duration::from_secs(20), fut).await })
+            .map_err(|_| "no completion within 20 s (executor T)".to_string()),
+        _ => block_on_simple(fut),
+    };
+    out.started = started.lock().unwrap().clone();
+    out.done = done.lock().unwrap().clone();
+    let state = match state {
+        Ok(Ok(s)) => s,
+        Ok(Err(e)) => {
+            out.err = Some(format!("process: {e}"));
+            return out;
+        }
+        Err(e) => {
+            out.err = Some(format!("hang: {e}"));
+            return out;
+        }
+    };
+    if let Err(e) = state.print_json(&mut out.bytes[0], false) {
+        out.err = Some(format!("print_json: {e}"));
+    }
+    if let Err(e) = state.print_json(&mut out.bytes[1], true) {
+        out.err = Some(format!("print_json(pretty): {e}"));
+    }
+    if let Err(e) = state.print(&mut out.bytes[2]) {
+        out.err = Some(format!("print: {e}"));
+    }
+    if let Err(e) = state.print_brief(&mut out.bytes[3]) {
+        out.err = Some(format!("print_brief: {e}"));
+    }
+    if keep_state {
+        out.state = Some(state);
+    }
+    out
+}
+
+fn repo_dir() -> PathBuf {
+    PathBuf::from(std::env::var("VERIF_REPO").unwrap_or_else(|_| "/repo".into()))
+}
+
+/// one run of a testdata dump with the repository's symbols
+fn run_file_once(bytes: &[u8], c: &FileCase, sched_seed: u64, exec: char, seed: u64) -> (RunOut, Vec<String>) {
+    let mut out = RunOut::default();
+    let dump = match Minidump::read(bytes) {
+        Ok(d) => d,
+        Err(e) => {
+            out.err = Some(format!("read: {e}"));
+            return (out, vec![]);
+        }
+    };
+    let ctl = Arc::new(Ctl::default());
+    let done = Arc::new(Mutex::new(vec![]));
+    let sup = DelaySup {
+        inner: breakpad_symbols::SimpleSymbolSupplier::new(vec![repo_dir().join("testdata/symbols")]),
+        k: c.k,
+        seed: sched_seed,
+        mode: match exec {
+            'R' => GateMode::Ctl(ctl.clone()),
+            'T' => GateMode::Spawn,
+            _ => GateMode::Auto,
+        },
+        done: done.clone(),
+    };
+    let provider = minidump_unwind::Symbolizer::new(sup);
+    let mut options = match c.feat {
+        0 => ProcessorOptions::default(),
+        1 => ProcessorOptions::stable_all(),
+        _ => ProcessorOptions::unstable_all(),
+    };
+    options.evil_json = None;
+    let fut = minidump_processor::process_minidump_with_options(&dump, &provider, options);
+    let state = match exec {
+        'R' => {
+            let mut rng = Rng::new(seed);
+            block_on_random(fut, &ctl, &mut rng)
+        }
+        'T' => tokio_rt()
+            .block_on(async { tokio::time::timeout(std::time::Duration::from_secs(20), fut).await })
+            .map_err(|_| "no completion within 20 s (executor T)".to_string()),
+        _ => block_on_simple(fut),
+    };
+    let done = done.lock().unwrap().clone();
+    let state = match state {
+        Ok(Ok(s)) => s,
+        Ok(Err(e)) => {
+            out.err = Some(format!("process: {e}"));
+            return (out, done);
+        }
+        Err(e) => {
+            out.err = Some(format!("hang: {e}"));
+            return (out, done);
+        }
+    };
+    let _ = state.print_json(&mut out.bytes[0], false).map_err(|e| out.err = Some(format!("print_json: {e}")));
+    let _ = state.print_json(&mut out.bytes[1], true).map_err(|e| out.err = Some(format!("print_json(pretty): {e}")));
+    let _ = state.print(&mut out.bytes[2]).map_err(|e| out.err = Some(format!("print: {e}")));
+    let _ = state.print_brief(&mut out.bytes[3]).map_err(|e| out.err = Some(format!("print_brief: {e}")));
+    (out, done)
+}
+
+fn exec_file(c: &FileCase) -> ImplResult {
+    let mut res = ImplResult::default();
+    let bytes = match std::fs::read(repo_dir().join("testdata").join(&c.name)) {
+        Ok(b) => b,
+        Err(e) => {
+            res.out = format!("ERR cannot read {}: {e}", c.name);
+            res.oracle.push(("testdata-missing".into(), res.out.clone()));
+            return res;
+        }
+    };
+    let (base, base_done) = run_file_once(&bytes, c, c.rs, 'B', c.rs);
+    let mut n_runs = 1;
+    let mut orders: BTreeSet<Vec<String>> = BTreeSet::new();
+    orders.insert(base_done.clone());
+    let diff = |o: &RunOut, kind: &str, what: &str, oracle: &mut Vec<(String, String)>| {
+        if o.err != base.err {
+            oracle.push((format!("outcome-differs-across-{kind}"), format!("{what}: {:?} (base: {:?})", o.err, base.err)));
+            return;
+        }
+        if let Some(i) = (0..2).find(|i| base.bytes[*i] != o.bytes[*i]) {
+            oracle.push((format!("json-differs-across-{kind}"), format!("{what}: {} differs; {}", WHICH[i], first_diff(&base.bytes[i], &o.bytes[i]))));
+        }
+        if let Some(i) = (2..4).find(|i| base.bytes[*i] != o.bytes[*i]) {
+            oracle.push((format!("text-differs-across-{kind}"), format!("{what}: {} differs; {}", WHICH[i], first_diff(&base.bytes[i], &o.bytes[i]))));
+        }
+    };
+    for r in 1..c.runs {
+        let (o, _) = if r % 2 == 1 {
+            std::thread::scope(|s| s.spawn(|| run_file_once(&bytes, c, c.rs, 'B', c.rs)).join())
+                .unwrap_or_else(|_| (RunOut { err: Some("panic".into()), ..Default::default() }, vec![]))
+        } else {
+            run_file_once(&bytes, c, c.rs, 'B', c.rs)
+        };
+        n_runs += 1;
+        diff(&o, "runs", &format!("run #{r} (executor B, base schedule)"), &mut res.oracle);
+    }
+    for si in 0..3u64 {
+        for x in c.execs.chars() {
+            if si == 0 && x == 'B' {
+                continue;
+            }
+            let (o, d) = run_file_once(&bytes, c, c.rs.wrapping_add(si), x, c.rs.wrapping_add(si * 977));
+            n_runs += 1;
+            orders.insert(d);
+            diff(&o, if si == 0 { "executors" } else { "schedules" }, &format!("executor {x}, schedule seed +{si}"), &mut res.oracle);
+        }
+    }
+    for which in ["json", "text"] {
+        if res.oracle.iter().any(|(cl, _)| *cl == format!("{which}-differs-across-runs")) {
+            res.oracle.retain(|(cl, _)| *cl != format!("{which}-differs-across-schedules") && *cl != format!("{which}-differs-across-executors"));
+        }
+    }
+    let mut seen = BTreeSet::new();
+    res.oracle.retain(|(cl, _)| seen.insert(cl.clone()));
+    res.out = match &base.err {
+        Some(e) => format!("ERR {e}"),
+        None => format!("ok json={:016x}/{} text={:016x}/{}", fnv64(&base.bytes[0]), base.bytes[0].len(), fnv64(&base.bytes[2]), base.bytes[2].len()),
+    };
+    res.nontrivial = base.err.is_none() && n_runs >= 4;
+    res.tags.push("kind:file".into());
+    res.tags.push(format!("file:{}", c.name));
+    res.tags.push(format!("file-distinct-completion-orders:{}", orders.len().min(6)));
+    res
+}
+
+// ----------------------------------------------------------------------------------- the oracle
+
+const WHICH: [&str; 4] = ["print_json(false)", "print_json(true)", "print", "print_brief"];
+
+fn first_diff(a: &[u8], b: &[u8]) -> String {
+    let n = a.iter().zip(b.iter()).take_while(|(x, y)| x == y).count();
+    let ctx = |v: &[u8]| -> String {
+        let lo = n.saturating_sub(60);
+        let hi = (n + 60).min(v.len());
+        String::from_utf8_lossy(&v[lo..hi]).replace('\n', "\\n")
+    };
+    format!("lengths {}/{}; first difference at byte {n}: …{}… vs …{}…", a.len(), b.len(), ctx(a), ctx(b))
+}
+
+/// indices of the modules whose file leaf name is shared with a module of another path
+fn shared_leaf_modules(c: &RunCase) -> BTreeSet<usize> {
+    let mut s = BTreeSet::new();
+    for i in 0..c.mods.len() {
+        for j in 0..c.mods.len() {
+            if i != j && c.mods[i].0 != c.mods[j].0 && leaf_of(&c.mods[i].0) == leaf_of(&c.mods[j].0) {
+                s.insert(i);
+            }
+        }
+    }
+    s
+}
+
+/// certificate table of the evil JSON: certificate -> module file names
+fn evil_certs(c: &RunCase) -> BTreeMap<String, Vec<String>> {
+    let mut certs: BTreeMap<String, Vec<String>> = BTreeMap::new();
+    if c.evil == 0 {
+        return certs;
+    }
+    let names = ["CN=Verif Code Signing A", "CN=Verif Code Signing B", "O=Other Corp", "CN=Third"];
+    let mut leaves: Vec<&str> = c.mods.iter().map(|(p, _)| leaf_of(p)).collect();
+    leaves.sort();
+    leaves.dedup();
+    for (i, l) in leaves.iter().enumerate() {
+        certs.entry(names[i % names.len()].to_string()).or_default().push(l.to_string());
+    }
+    // certificates of modules that are not in the dump (make the map big enough for its order to vary)
+    for k in 0..6 {
+        certs.entry(format!("CN=Unrelated {k}")).or_default().push(format!("unrelated{k}.dll"));
+    }
+    if c.evil == 2 {
+        // dual-signed: the first leaf is ALSO listed under two other certificates
+        certs.entry("CN=Second Signature".to_string()).or_default().push(leaves[0].to_string());
+        certs.entry("CN=Unrelated 3".to_string()).or_default().push(leaves[0].to_string());
+    }
+    certs
+}
+
+/// file names listed under more than one certificate
+fn multi_cert_leaves(c: &RunCase) -> BTreeSet<String> {
+    let mut n: BTreeMap<String, usize> = BTreeMap::new();
+    for ms in evil_certs(c).values() {
+        for m in ms {
+            *n.entry(m.clone()).or_default() += 1;
+        }
+    }
+    n.into_iter().filter(|(_, k)| *k > 1).map(|(m, _)| m).collect()
+}
+
+/// the JSON document with (stats) the per-module symbol statistics of the same-leaf modules and/or
+/// (cert) the certificate of the modules listed under several certificates removed
+fn mask_json(json: &[u8], c: &RunCase, stats: bool, cert: bool) -> Option<serde_json::Value> {
+    let mut v: serde_json::Value = serde_json::from_slice(json).ok()?;
+    let shared = shared_leaf_modules(c);
+    let multi = multi_cert_leaves(c);
+    let mods = v.get_mut("modules")?.as_array_mut()?;
+    for m in mods.iter_mut() {
+        let base = u64::from_str_radix(m.get("base_addr")?.as_str()?.trim_start_matches("0x"), 16).ok()?;
+        let idx = (0..c.mods.len()).find(|i| mod_base(*i) == base)?;
+        let o = m.as_object_mut()?;
+        if stats && shared.contains(&idx) {
+            for k in ["missing_symbols", "loaded_symbols", "corrupt_symbols", "symbol_url", "debug_file", "debug_id"] {
+                o.remove(k);
+            }
+        }
+        if cert && multi.contains(leaf_of(&c.mods[idx].0)) {
+            o.remove("cert_subject");
+        }
+    }
+    Some(v)
+}
+
+/// the text report with the ` (<certificate>)` suffix of the multi-certificate modules' lines removed
+fn mask_text(text: &[u8], c: &RunCase) -> Vec<u8> {
+    let multi = multi_cert_leaves(c);
+    let certs = evil_certs(c);
+    let s = String::from_utf8_lossy(text);
+    let mut out = String::new();
+    for line in s.lines() {
+        let mut l = line.to_string();
+        if multi.iter().any(|m| line.contains(&format!("  {m}  "))) {
+            for name in certs.keys() {
+                if let Some(stripped) = l.strip_suffix(&format!(" ({name})")) {
+                    l = stripped.to_string();
+                    break;
+                }
+            }
+        }
+        out.push_str(&l);
+        out.push('\n');
+    }
+    out.into_bytes()
+}
+
+fn compare(c: &RunCase, base: &RunOut, other: &RunOut, kind: &str, what: &str, oracle: &mut Vec<(String, String)>) {
+    if let Some(e) = &other.err {
+        if base.err.as_ref() != Some(e) {
+            oracle.push((format!("outcome-differs-across-{kind}"), format!("{what}: {e} (base: {:?})", base.err)));
+        }
+        return;
+    }
+    let json_diff = (0..2).find(|i| base.bytes[*i] != other.bytes[*i]);
+    let text_diff = (2..4).find(|i| base.bytes[*i] != other.bytes[*i]);
+    if let Some(i) = json_diff {
+        let eq_masked = |stats: bool, cert: bool| -> bool {
+            (0..2).all(|j| match (mask_json(&base.bytes[j], c, stats, cert), mask_json(&other.bytes[j], c, stats, cert)) {
+                (Some(a), Some(b)) => a == b,
+                _ => false,
+            })
+        };
+        let detail = format!(
+            "{what}: {} differs; completion order of the supplier calls {:?} vs base {:?}; {}",
+            WHICH[i],
+            other.done,
+            base.done,
+            first_diff(&base.bytes[i], &other.bytes[i])
+        );
+        // exactly the certificate of a module listed under several certificates (evil.rs)?
+        // exactly the symbol statistics of modules that share a leaf name (F16)? both?
+        if c.evil == 2 && eq_masked(false, true) {
+            oracle.push(("cert-depends-on-hash-order".into(), detail));
+        } else if kind != "runs" && eq_masked(true, false) {
+            oracle.push(("stats-depend-on-completion-order".into(), detail));
+        } else if kind != "runs" && c.evil == 2 && eq_masked(true, true) {
+            oracle.push(("cert-depends-on-hash-order".into(), detail.clone()));
+            oracle.push(("stats-depend-on-completion-order".into(), detail));
+        } else {
+            oracle.push((format!("json-differs-across-{kind}"), detail));
+        }
+    }
+    if let Some(i) = text_diff {
+        let detail = format!("{what}: {} differs; {}", WHICH[i], first_diff(&base.bytes[i], &other.bytes[i]));
+        if c.evil == 2 && (2..4).all(|j| mask_text(&base.bytes[j], c) == mask_text(&other.bytes[j], c)) {
+            oracle.push(("cert-depends-on-hash-order".into(), detail));
+        } else {
+            oracle.push((format!("text-differs-across-{kind}"), detail));
+        }
+    }
+}
+
+// -------------------------------------------------------------- extraction for the Lean models
+
+fn limit_tok(l: &Limit) -> String {
+    match l {
+        Limit::Error => "err".into(),
+        Limit::Unlimited => "unlimited".into(),
+        Limit::Limited(v) => v.to_string(),
+    }
+}
+fn json_limit_tok(v: &serde_json::Value) -> String {
+    match v {
+        serde_json::Value::String(s) => s.clone(),
+        serde_json::Value::Number(n) => n.to_string(),
+        other => format!("?{other}"),
+    }
+}
+
+fn list(xs: Vec<String>) -> String {
+    if xs.is_empty() {
+        "-".into()
+    } else {
+        xs.join(",")
+    }
+}
+
+/// key order of the `"registers":{..}` object of `crashing_thread.frames[0]` in the compact JSON text
+fn json_register_keys(json: &[u8]) -> Option<Vec<String>> {
+    let s = std::str::from_utf8(json).ok()?;
+    let start = s.find("\"crashing_thread\":{")?;
+    let rest = &s[start..];
+    let p = rest.find("\"registers\":{")?;
+    let body = &rest[p + 13..];
+    let end = body.find('}')?;
+    let body = &body[..end];
+    let mut keys = vec![];
+    for kv in body.split(',') {
+        if kv.is_empty() {
+            continue;
+        }
+        let (k, _) = kv.split_once(':')?;
+        keys.push(k.trim_matches('"').to_string());
+    }
+    Some(keys)
+}
+
+/// register names in the order `CallStack::print` shows them for the physical frame `f` (every
+/// physical frame ends with a "Found by:" line; inlined frames have no registers and end with
+/// "Found by: inlining")
+fn text_register_names(stack_text: &str, f: usize) -> Vec<String> {
+    let mut names = vec![];
+    let mut cur = 0usize;
+    for line in stack_text.lines() {
+        let t = line.trim_start();
+        if t.starts_with("Found by:") {
+            if t != "Found by: inlining" {
+                cur += 1;
+            }
+            continue;
+        }
+        if cur == f && t.contains(" = 0x") {
+            let toks: Vec<&str> = t.split_whitespace().collect();
+            for w in toks.windows(3) {
+                if w[1] == "=" && w[2].starts_with("0x") {
+                    names.push(w[0].to_string());
+                }
+            }
+        }
+    }
+    names
+}
+
+struct Extract {
+    request: String,
+    out: String,
+}
+
+fn extract(c: &RunCase, base: &RunOut) -> Result<Extract, String> {
+    let state = base.state.as_ref().ok_or("no state")?;
+    let v: serde_json::Value = serde_json::from_slice(&base.bytes[0]).map_err(|e| format!("json: {e}"))?;
+    // ---- limits: the map in its REAL iteration order vs the array of the report
+    let lim_in: Vec<String> = match &state.linux_proc_limits {
+        Some(l) => l
+            .limits
+            .iter()
+            .map(|(n, l)| format!("{}/{}/{}/{}", hex(n.as_bytes()), limit_tok(&l.soft), limit_tok(&l.hard), hex(l.unit.as_bytes())))
+            .collect(),
+        None => vec![],
+    };
+    let lim_out: Vec<String> = match v.get("proc_limits").and_then(|p| p.get("limits")).and_then(|l| l.as_array()) {
+        Some(a) => a
+            .iter()
+            .map(|e| {
+                format!(
+                    "{}/{}/{}/{}",
+                    hex(e["name"].as_str().unwrap_or("?").as_bytes()),
+                    json_limit_tok(&e["soft"]),
+                    json_limit_tok(&e["hard"]),
+                    hex(e["unit"].as_str().unwrap_or("?").as_bytes())
+                )
+            })
+            .collect(),
+        None => vec![],
+    };
+    // ---- stats: modules in report order, the REAL completion order of the supplier calls
+    let jm = v.get("modules").and_then(|m| m.as_array()).ok_or("no modules")?;
+    let mut order: Vec<usize> = vec![]; // report position -> case index
+    let mut stats_out = vec![];
+    for m in jm {
+        let base_addr = m["base_addr"].as_str().and_then(|s| u64::from_str_radix(s.trim_start_matches("0x"), 16).ok()).ok_or("base_addr")?;
+        let idx = (0..c.mods.len()).find(|i| mod_base(*i) == base_addr).ok_or("unknown module in report")?;
+        order.push(idx);
+        let b = |k: &str| if m[k].as_bool().unwrap_or(false) { '1' } else { '0' };
+        stats_out.push(format!("{}{}{}", b("missing_symbols"), b("loaded_symbols"), b("corrupt_symbols")));
+    }
+    let mods_in: Vec<String> = order.iter().map(|i| format!("{}={}", hex(leaf_of(&c.mods[*i].0).as_bytes()), c.mods[*i].1.s())).collect();
+    let done_in: Vec<String> = base
+        .done
+        .iter()
+        .map(|i| order.iter().position(|o| o == i).map(|p| p.to_string()).ok_or("completed module not in report"))
+        .collect::<Result<_, _>>()?;
+    // ---- threads: expected ids by index (from the dump), frame counts from the state; the
+    //      completion order handed to the model is an arbitrary permutation (the theorem says it
+    //      cannot matter)
+    let n = c.thr.len();
+    let mut perm: Vec<usize> = (0..n).collect();
+    let mut rng = Rng::new(c.rs ^ 0x7e57);
+    for i in (1..n).rev() {
+        perm.swap(i, rng.below(i as u64 + 1) as usize);
+    }
+    if state.threads.len() != n {
+        return Err(format!("{} threads in the state, {n} in the dump", state.threads.len()));
+    }
+    let thr_in: Vec<String> = (0..n).map(|t| (tid(t) as u64 * 1000 + state.threads[t].frames.len() as u64).to_string()).collect();
+    let thr_out: Vec<String> = v["threads"]
+        .as_array()
+        .ok_or("no threads")?
+        .iter()
+        .map(|t| (t["thread_id"].as_u64().unwrap_or(0) * 1000 + t["frame_count"].as_u64().unwrap_or(0)).to_string())
+        .collect();
+    // ---- registers of one recovered frame: the validity set in its REAL iteration order
+    let f = 1.min(state.threads[0].frames.len().saturating_sub(1));
+    let frame = &state.threads[0].frames[f];
+    let fixed: Vec<String> = frame.context.general_purpose_registers().iter().map(|r| hex(r.as_bytes())).collect();
+    let valid_in: Vec<String> = match &frame.context.valid {
+        MinidumpContextValidity::All => frame.context.general_purpose_registers().iter().map(|r| hex(r.as_bytes())).collect(),
+        MinidumpContextValidity::Some(set) => set.iter().map(|r| hex(r.as_bytes())).collect(),
+    };
+    let mut stack_text = vec![];
+    state.threads[0].print(&mut stack_text).map_err(|e| e.to_string())?;
+    let text_out: Vec<String> = text_register_names(&String::from_utf8_lossy(&stack_text), f).iter().map(|r| hex(r.as_bytes())).collect();
+    // ---- JSON registers: only the crashing thread's context frame has them; `json_registers`
+    //      builds a HashSet of all register names for a fully valid context — its iteration order
+    //      (here: that of an equally built set) is what must not matter
+    let (jvalid_in, json_out): (Vec<String>, Vec<String>) = match state.requesting_thread {
+        Some(rt) if !state.threads[rt].frames.is_empty() => {
+            let ctx = &state.threads[rt].frames[0].context;
+            let set: HashSet<&str> = match &ctx.valid {
+                MinidumpContextValidity::All => ctx.general_purpose_registers().iter().cloned().collect(),
+                MinidumpContextValidity::Some(s) => s.clone(),
+            };
+            (
+                set.iter().map(|r| hex(r.as_bytes())).collect(),
+                json_register_keys(&base.bytes[0]).ok_or("registers object not found")?.iter().map(|r| hex(r.as_bytes())).collect(),
+            )
+        }
+        _ => (vec![], vec![]),
+    };
+    // ---- certificates: the table of the evil JSON (its iteration order inside `handle_evil` is not
+    //      observable: an arbitrary one is handed to the model) and every module of the report,
+    //      dual-signed ones included
+    let certs_in: Vec<String> = {
+        let mut v: Vec<(String, Vec<String>)> = evil_certs(c).into_iter().collect();
+        let mut rng = Rng::new(c.rs ^ 0xce27);
+        for i in (1..v.len()).rev() {
+            v.swap(i, rng.below(i as u64 + 1) as usize);
+        }
+        v.iter().map(|(k, ms)| format!("{}={}", hex(k.as_bytes()), ms.iter().map(|m| hex(m.as_bytes())).collect::<Vec<_>>().join("+"))).collect()
+    };
+    let mut cshown_in = vec![];
+    let mut cert_out = vec![];
+    if c.evil > 0 {
+        for (pos, m) in jm.iter().enumerate() {
+            let leaf = leaf_of(&c.mods[order[pos]].0);
+            cshown_in.push(hex(leaf.as_bytes()));
+            cert_out.push(match m["cert_subject"].as_str() {
+                Some(s) => hex(s.as_bytes()),
+                None => "0".to_string(),
+            });
+        }
+    }
+    let request = format!(
+        "det model lim:{} mods:{} done:{} thr:{}/{} fixed:{} valid:{} jvalid:{} certs:{} cshown:{}",
+        list(lim_in),
+        list(mods_in),
+        list(done_in),
+        if n == 0 { "-".to_string() } else { perm.iter().map(|x| x.to_string()).collect::<Vec<_>>().join(".") },
+        list(thr_in),
+        list(fixed),
+        list(valid_in),
+        list(jvalid_in),
+        list(certs_in),
+        list(cshown_in)
+    );
+    let out = format!(
+        "lim:{} stats:{} thr:{} text:{} json:{} cert:{}",
+        lim_out.join(","),
+        stats_out.join(","),
+        thr_out.join(","),
+        text_out.join(","),
+        json_out.join(","),
+        cert_out.join(",")
+    );
+    Ok(Extract { request, out })
+}
+
+thread_local! {
+    /// model request of the case `exec` ran last on this thread (built from what the run showed)
+    static LAST: RefCell<Option<(String, String)>> = const { RefCell::new(None) };
+}
+
+// ------------------------------------------------------------------------- direct CFI walker
+
+const ARM64_NAMES: [&str; 33] = [
+    "x0", "x1", "x2", "x3", "x4", "x5", "x6", "x7", "x8", "x9", "x10", "x11", "x12", "x13", "x14", "x15", "x16",
+    "x17", "x18", "x19", "x20", "x21", "x22", "x23", "x24", "x25", "x26", "x27", "x28", "fp", "lr", "sp", "pc",
+];
+
+/// twin of `CfiStackWalker<CONTEXT_ARM64>` (minidump-unwind/src/lib.rs:610-660) on the real context type
+struct Twin {
+    caller_ctx: CONTEXT_ARM64,
+    caller_validity: HashSet<&'static str>,
+    /// every name ever passed to set/clear, canonicalised (for the output)
+    touched: BTreeSet<u32>,
+}
+impl Twin {
+    fn id(name: &str) -> Option<u32> {
+        ARM64_NAMES.iter().position(|n| *n == name).map(|p| p as u32)
+    }
+}
+impl FrameWalker for Twin {
+    fn get_instruction(&self) -> u64 {
+        0x1010
+    }
+    fn has_grand_callee(&self) -> bool {
+        false
+    }
+    fn get_grand_callee_parameter_size(&self) -> u32 {
+        0
+    }
+    fn get_register_at_address(&self, _address: u64) -> Option<u64> {
+        None
+    }
+    fn get_callee_register(&self, name: &str) -> Option<u64> {
+        if name == "sp" {
+            Some(0x8000)
+        } else {
+            None
+        }
+    }
+    fn set_caller_register(&mut self, name: &str, val: u64) -> Option<()> {
+        let memoized = self.caller_ctx.memoize_register(name)?;
+        self.touched.insert(Twin::id(memoized)?);
+        self.caller_validity.insert(memoized);
+        self.caller_ctx.set_register(name, val)
+    }
+    fn clear_caller_register(&mut self, name: &str) {
+        if let Some(memoized) = self.caller_ctx.memoize_register(name) {
+            if let Some(i) = Twin::id(memoized) {
+                self.touched.insert(i);
+            }
+            self.caller_validity.remove(memoized);
+        }
+    }
+    fn set_cfa(&mut self, _val: u64) -> Option<()> {
+        Some(())
+    }
+    fn set_ra(&mut self, _val: u64) -> Option<()> {
+        Some(())
+    }
+}
+
+/// one direct call of `walk_with_stack_cfi`; `sh` chooses how the rule map is spread over the INIT
+/// record and delta records (text order, `$` prefixes, shadowed earlier occurrences, expression forms)
+fn cfi_once(c: &CfiCase, sh: u64) -> (Result<Option<String>, String>, String, bool) {
+    let mut rng = Rng::new(sh);
+    let mut order: Vec<usize> = (0..c.rules.len()).collect();
+    for i in (1..order.len()).rev() {
+        order.swap(i, rng.below(i as u64 + 1) as usize);
+    }
+    let expr = |v: &Option<u64>, rng: &mut Rng| -> String {
+        match v {
+            None => (*rng.pick(&[".undef", "nosuchreg", "1 0 /", "+"])).to_string(),
+            Some(v) => match rng.below(3) {
+                0 => v.to_string(),
+                1 => format!("{} {} +", v / 2, v - v / 2),
+                _ => format!(".cfa {} -", 0x9000u64.wrapping_sub(*v)),
+            },
+        }
+    };
+    let mut init = String::from(".cfa: sp 4096 + .ra: 8192");
+    let nadd = rng.below(3) as usize;
+    let mut adds: Vec<String> = vec![String::new(); nadd];
+    for &i in &order {
+        let (l, v) = &c.rules[i];
+        let dollar = if rng.chance(1, 5) { "$" } else { "" };
+        let slot = rng.below(nadd as u64 + 1) as usize;
+        let e = expr(v, &mut rng);
+        if slot == 0 {
+            init.push_str(&format!(" {dollar}{l}: {e}"));
+        } else {
+            // shadowed occurrence in INIT with another outcome
+            if rng.chance(1, 2) {
+                init.push_str(&format!(" {l}: {}", if v.is_some() { ".undef".to_string() } else { "12345".to_string() }));
+            }
+            adds[slot - 1].push_str(&format!(" {dollar}{l}: {e}"));
+        }
+    }
+    let init_rules = CfiRules { address: 0x1000, rules: init };
+    let additional: Vec<CfiRules> = adds
+        .iter()
+        .enumerate()
+        .filter(|(_, a)| !a.is_empty())
+        .map(|(k, a)| CfiRules { address: 0x1004 + 4 * k as u64, rules: a.trim().to_string() })
+        .collect();
+    let mut tw = Twin { caller_ctx: CONTEXT_ARM64::default(), caller_validity: HashSet::new(), touched: BTreeSet::new() };
+    for (r, v, valid) in &c.init {
+        let name = ARM64_NAMES[*r as usize];
+        tw.caller_ctx.set_register(name, *v);
+        if *valid {
+            tw.caller_validity.insert(name);
+        } else {
+            tw.caller_validity.remove(name);
+        }
+        tw.touched.insert(*r);
+    }
+    let text = format!("INIT `{}` + {:?}", init_rules.rules, additional.iter().map(|a| a.rules.as_str()).collect::<Vec<_>>());
+    let r = catch(|| walk_with_stack_cfi(&init_rules, &additional, &mut tw));
+    let out = match r {
+        Err(msg) => Err(msg),
+        Ok(None) => Ok(None),
+        Ok(Some(())) => {
+            let mut shown = vec![];
+            for (i, name) in ARM64_NAMES.iter().enumerate() {
+                let valid = tw.caller_validity.contains(name);
+                if valid || tw.touched.contains(&(i as u32)) {
+                    shown.push(format!("{i}={}{}", tw.caller_ctx.get_register_always(name), if valid { '+' } else { '-' }));
+                }
+            }
+            Ok(Some(format!("regs:{}", shown.join(","))))
+        }
+    };
+    (out, text, !additional.is_empty())
+}
+
+fn exec_cfi(c: &CfiCase) -> ImplResult {
+    let mut res = ImplResult::default();
+    let (first, text, has_delta) = cfi_once(c, c.sh);
+    match &first {
+        Err(msg) => {
+            res.out = "PANIC".into();
+            res.oracle.push(("panic".into(), msg.clone()));
+        }
+        Ok(None) => {
+            res.out = "none".into();
+            res.oracle.push(("cfi-walk-failed".into(), format!("walk_with_stack_cfi returned None on {text}")));
+        }
+        Ok(Some(s)) => res.out = s.clone(),
+    }
+    // the property's oracle on the implementation alone: the same rule map gives the same caller
+    // registers on every call (each call builds a fresh HashMap, i.e. a fresh hash seed) and for
+    // every way of writing the same map down
+    for k in 1..8u64 {
+        let sh = if k < 5 { c.sh } else { c.sh.wrapping_mul(31).wrapping_add(k) };
+        let (again, text2, _) = cfi_once(c, sh);
+        if again != first {
+            let class = if k < 5 { "cfi-registers-differ-across-runs" } else { "cfi-registers-differ-across-renderings" };
+            res.oracle.push((
+                class.into(),
+                format!("call #{k}: {:?} but the first call gave {:?}; records: {text2} (first call: {text})", again, first),
+            ));
+            break;
+        }
+    }
+    let additional_nonempty = has_delta;
+    // distribution
+    let canon = |l: &str| -> Option<&'static str> { CONTEXT_ARM64::default().memoize_register(l) };
+    let mut targets: Vec<&'static str> = c.rules.iter().filter_map(|(l, _)| canon(l)).collect();
+    let n = targets.len();
+    targets.sort();
+    targets.dedup();
+    let aliased = targets.len() < n;
+    res.nontrivial = c.rules.len() >= 2;
+    res.tags.push("kind:cfi".into());
+    res.tags.push(format!("cfi-rules:{}", c.rules.len().min(8)));
+    if aliased {
+        res.tags.push("cfi-aliased-labels".into());
+    }
+    if additional_nonempty {
+        res.tags.push("cfi-delta-records".into());
+    }
+    res
+}
+
+// ----------------------------------------------------------------------------------- exec (run)
+
+fn exec_run(c: &RunCase) -> ImplResult {
+    let mut res = ImplResult::default();
+    let bytes = build_dump(c);
+    let text: Arc<Vec<String>> = Arc::new((0..c.mods.len()).map(|i| symbol_text(c, i)).collect());
+    let evil_file = if c.evil > 0 {
+        let mut f = tempfile::NamedTempFile::new().expect("temp file");
+        std::io::Write::write_all(&mut f, evil_text(c).as_bytes()).expect("write evil json");
+        Some(f)
+    } else {
+        None
+    };
+    let evil: Option<&std::path::Path> = evil_file.as_ref().map(|f| f.path());
+    let base = run_once(&bytes, c, &text, evil, &c.sched[0], 'B', c.rs, true);
+    let mut n_runs = 1usize;
+    // debugging aid for replays: VERIF_DET_DUMP=<dir> keeps the dump, the symbol files and the base reports
+    if let Ok(dir) = std::env::var("VERIF_DET_DUMP") {
+        let _ = std::fs::create_dir_all(&dir);
+        let _ = std::fs::write(format!("{dir}/dump.dmp"), &bytes);
+        for (i, t) in text.iter().enumerate() {
+            let _ = std::fs::write(format!("{dir}/module{i}.sym"), t);
+        }
+        for (i, n) in ["report.json", "report.pretty.json", "report.txt", "report.brief.txt"].iter().enumerate() {
+            let _ = std::fs::write(format!("{dir}/{n}"), &base.bytes[i]);
+        }
+    }
+    if let Some(e) = &base.err {
+        res.out = format!("ERR {e}");
+        res.oracle.push(("processing-failed".into(), e.clone()));
+        return res;
+    }
+    // repeated runs, same schedule, same executor: fresh hash seeds (odd runs on a fresh OS thread,
+    // whose `RandomState` keys are drawn afresh)
+    for r in 1..c.runs {
+        let o = if r % 2 == 1 {
+            std::thread::scope(|s| s.spawn(|| run_once(&bytes, c, &text, evil, &c.sched[0], 'B', c.rs, false)).join())
+                .unwrap_or_else(|_| RunOut { err: Some("panic".into()), ..Default::default() })
+        } else {
+            run_once(&bytes, c, &text, evil, &c.sched[0], 'B', c.rs, false)
+        };
+        n_runs += 1;
+        compare(c, &base, &o, "runs", &format!("run #{r} (executor B, base schedule)"), &mut res.oracle);
+    }
+    let mut orders: BTreeSet<Vec<usize>> = BTreeSet::new();
+    orders.insert(base.done.clone());
+    for (si, tab) in c.sched.iter().enumerate() {
+        for x in c.execs.chars() {
+            if si == 0 && x == 'B' {
+                continue;
+            }
+            let o = run_once(&bytes, c, &text, evil, tab, x, c.rs.wrapping_add(si as u64 * 977), false);
+            n_runs += 1;
+            orders.insert(o.done.clone());
+            // the schedule differs, or only the executor
+            let kind = if si == 0 { "executors" } else if x == 'B' { "schedules" } else { "schedules" };
+            let kind = if si != 0 && x != 'B' && c.sched[si] == c.sched[0] { "executors" } else { kind };
+            compare(c, &base, &o, kind, &format!("executor {x}, schedule #{si} {:?}", tab), &mut res.oracle);
+        }
+    }
+    // when already two runs of the SAME schedule and executor differ, differences under other
+    // schedules / executors say nothing about schedules / executors
+    for which in ["json", "text"] {
+        if res.oracle.iter().any(|(cl, _)| *cl == format!("{which}-differs-across-runs")) {
+            res.oracle.retain(|(cl, _)| *cl != format!("{which}-differs-across-schedules") && *cl != format!("{which}-differs-across-executors"));
+        }
+    }
+    // one report per class is enough
+    let mut seen = BTreeSet::new();
+    res.oracle.retain(|(cl, _)| seen.insert(cl.clone()));
+    match extract(c, &base) {
+        Ok(e) => {
+            res.out = e.out;
+            LAST.with(|l| *l.borrow_mut() = Some((render_run(c), e.request)));
+        }
+        Err(e) => {
+            res.out = format!("EXTRACT-FAILED {e}");
+            res.oracle.push(("extract-failed".into(), e));
+        }
+    }
+    // distribution
+    let state = base.state.as_ref().unwrap();
+    let frames: usize = state.threads.iter().map(|t| t.frames.len()).sum();
+    let cfi_frames = state.threads.iter().flat_map(|t| t.frames.iter()).filter(|f| f.trust == minidump_unwind::FrameTrust::CallFrameInfo).count();
+    let shared = shared_leaf_modules(c);
+    let shared_differ = shared.iter().any(|i| shared.iter().any(|j| leaf_of(&c.mods[*i].0) == leaf_of(&c.mods[*j].0) && c.mods[*i].1 != c.mods[*j].1));
+    res.nontrivial = n_runs >= 4 && frames > c.thr.len() && orders.len() >= 1;
+    res.tags.push("kind:run".into());
+    res.tags.push(format!("runs-per-pair:{}", (n_runs / 4) * 4));
+    res.tags.push(format!("threads:{}", if c.thr.len() > 30 { ">30".to_string() } else { ((c.thr.len() + 3) / 4 * 4).to_string() }));
+    res.tags.push(format!("limits:{}", if c.lim_n == 0 { "none" } else if c.lim_n >= 8 { ">=8" } else { "<8" }));
+    res.tags.push(format!("cfi-alias-flavour:{}", c.alias));
+    res.tags.push(format!("distinct-completion-orders:{}", orders.len().min(6)));
+    if cfi_frames > 0 {
+        res.tags.push("has-cfi-frames".into());
+    }
+    if c.cv.iter().any(|g| g.is_some()) {
+        res.tags.push("modules-sharing-debug-id".into());
+    }
+    if !shared.is_empty() {
+        res.tags.push(if shared_differ { "same-leaf-different-outcome".into() } else { "same-leaf-same-outcome".into() });
+    }
+    for x in c.execs.chars() {
+        res.tags.push(format!("exec:{x}"));
+    }
+    if c.exc {
+        res.tags.push("exception-stream".into());
+    }
+    res.tags.push(format!("evil-json:{}", c.evil));
+    res
+}
+
+// ------------------------------------------------------------------------------------ generator
+
+const PATHS_PLAIN: &[&str] = &["/usr/lib/libc.so.6", "/usr/lib/libxul.so", "/app/bin/main", "/usr/lib/libm.so", "/opt/q/plugin.so", "/lib/ld-linux.so"];
+const PATHS_SAME_LEAF: &[&str] = &["/opt/a/x.so", "/opt/b/x.so", "/opt/c/x.so", "C:\\win\\a\\y.dll", "/opt/d/y.dll"];
+
+fn gen_run(rng: &mut Rng, i: u64, tier: Tier) -> RunCase {
+    let quick = tier == Tier::Quick;
+    // modules
+    let mut mods: Vec<(String, Res)> = vec![];
+    let same_leaf = i % 3 == 0;
+    let nplain = rng.range(1, 4) as usize;
+    let mut plain: Vec<&str> = PATHS_PLAIN.to_vec();
+    for _ in 0..nplain {
+        let p = plain.swap_remove(rng.below(plain.len() as u64) as usize);
+        mods.push((p.to_string(), *rng.pick(&[Res::Ok, Res::Ok, Res::Ok, Res::Nf, Res::Pe])));
+    }
+    if same_leaf {
+        let group: &[&str] = if rng.chance(2, 3) { &PATHS_SAME_LEAF[0..3] } else { &PATHS_SAME_LEAF[3..5] };
+        let k = rng.range(2, group.len() as u64) as usize;
+        // half of these: different outcomes (F16), half: the same outcome
+        let differ = i % 6 == 0;
+        let first = *rng.pick(&[Res::Ok, Res::Ok, Res::Nf, Res::Pe]);
+        for (j, p) in group.iter().take(k).enumerate() {
+            let r = if !differ {
+                first
+            } else if j == 0 {
+                first
+            } else {
+                *rng.pick(&[Res::Ok, Res::Nf, Res::Pe].iter().filter(|r| **r != first).copied().collect::<Vec<_>>())
+            };
+            mods.push((p.to_string(), r));
+        }
+    }
+    // a DLL and a renamed copy: same debug file / debug id / code id, different code files (and
+    // unique leaf names), same symbols
+    let cv_pair = i % 5 == 1;
+    let mut groups: Vec<Option<u32>> = vec![None; mods.len()];
+    if cv_pair {
+        let r = *rng.pick(&[Res::Ok, Res::Ok, Res::Ok, Res::Nf, Res::Pe]);
+        let g = rng.below(4) as u32;
+        for p in ["/opt/app/app.dll", "/opt/app/backup/app_copy.dll"] {
+            mods.push((p.to_string(), r));
+            groups.push(Some(g));
+        }
+        if mods.len() < 4 {
+            // two distinct gate modules are needed
+            mods.insert(0, ("/usr/lib/libgate.so".to_string(), Res::Ok));
+            groups.insert(0, None);
+        }
+    }
+    // shuffle the module list
+    for a in (1..mods.len()).rev() {
+        let b = rng.below(a as u64 + 1) as usize;
+        mods.swap(a, b);
+        groups.swap(a, b);
+    }
+    let nm = mods.len();
+    // threads: several walking through the same modules; sometimes > 30 (join_all switches to
+    // FuturesOrdered above 30 futures)
+    let nt = if i % 40 == 7 { rng.range(31, if quick { 36 } else { 48 }) } else { rng.range(2, 6) } as usize;
+    let mut thr = vec![];
+    for t in 0..nt {
+        let depth = rng.range(2, 6) as usize;
+        let mut chain: Vec<usize> = (0..depth).map(|_| rng.below(nm as u64) as usize).collect();
+        // make sure every module is walked by some thread, same-leaf modules by DIFFERENT threads first
+        if t < nm {
+            chain[0] = t % nm;
+        }
+        thr.push(chain);
+    }
+    let mut gates: Vec<usize> = vec![];
+    if cv_pair {
+        // the two copies are first requested by two different threads, each after a lookup of
+        // another ("gate") module; the gates are delayed differently per schedule
+        let copies: Vec<usize> = (0..nm).filter(|m| groups[*m].is_some()).collect();
+        let plain: Vec<usize> = (0..nm).filter(|m| groups[*m].is_none()).collect();
+        gates = vec![plain[0], plain[1 % plain.len()]];
+        for t in thr.iter_mut() {
+            for m in t.iter_mut() {
+                if groups[*m].is_some() {
+                    *m = gates[0];
+                }
+            }
+        }
+        let extra = rng.range(0, 2) as usize;
+        thr[0] = [vec![gates[0], copies[0]], (0..extra).map(|_| copies[0]).collect()].concat();
+        thr[1] = [vec![gates[1], copies[1]], (0..extra).map(|_| gates[1]).collect()].concat();
+    }
+    // schedules
+    let ns = if nt > 30 { 2 } else { rng.range(2, 4) as usize };
+    let mut sched = vec![];
+    for s in 0..ns {
+        let tab: Vec<u32> = match s {
+            0 => {
+                let mut tab: Vec<u32> = (0..nm).map(|_| rng.below(3) as u32).collect();
+                if cv_pair && gates[0] != gates[1] {
+                    // (the second table is the mirror image 4 - d)
+                    tab[gates[0]] = if rng.chance(1, 2) { 0 } else { 3 };
+                    tab[gates[1]] = 3 - tab[gates[0]];
+                    for m in 0..nm {
+                        if groups[m].is_some() {
+                            tab[m] = 2;
+                        }
+                    }
+                }
+                tab
+            }
+            // the reverse of the base order: who was fast is slow
+            1 => {
+                let base: &Vec<u32> = &sched[0];
+                base.iter().map(|d| 4 - d.min(&4)).collect()
+            }
+            _ => (0..nm).map(|_| rng.below(6) as u32).collect(),
+        };
+        sched.push(tab);
+    }
+    let execs = match i % 8 {
+        0 => "BRT",
+        1 | 2 | 3 => "BR",
+        4 => "BT",
+        _ => "B",
+    };
+    RunCase {
+        feat: (i % 3) as u32,
+        exc: i % 4 == 1,
+        lim_n: if i % 10 == 9 { 0 } else { rng.range(8, 18) as u32 },
+        lim_seed: rng.below(1 << 32),
+        cv: groups,
+        alias: if i % 8 == 7 {
+            4
+        } else if i % 4 == 3 {
+            0
+        } else {
+            1 + (rng.below(3) as u32)
+        },
+        mods,
+        thr,
+        sched,
+        runs: if nt > 30 { 3 } else { 5 },
+        execs: execs.to_string(),
+        rs: rng.below(1 << 32),
+        evil: match i % 7 {
+            2 => 1,
+            5 => 2,
+            _ => 0,
+        },
+    }
+}
+
+const CFI_LABELS: &[&str] = &[
+    "x19", "x20", "x21", "x22", "x23", "x24", "x25", "x26", "x27", "x28", "x29", "fp", "x30", "lr", "sp", "pc", "x0",
+    "x7", "x18", "bogus", "x31", "x07", "X19", "r11", "fp2", "f",
+];
+
+fn gen_cfi(rng: &mut Rng) -> CfiCase {
+    let n = rng.range(0, 8) as usize;
+    let mut labels: Vec<&str> = CFI_LABELS.to_vec();
+    let mut rules = vec![];
+    // aliased pairs in a fixed fraction
+    if rng.chance(1, 2) {
+        for pair in [["x29", "fp"], ["x30", "lr"]] {
+            if rng.chance(1, 2) {
+                for l in pair {
+                    labels.retain(|x| *x != l);
+                    rules.push((l.to_string(), if rng.chance(1, 4) { None } else { Some(rng.below(0x8000)) }));
+                }
+            }
+        }
+    }
+    for _ in 0..n {
+        if labels.is_empty() {
+            break;
+        }
+        let l = labels.swap_remove(rng.below(labels.len() as u64) as usize);
+        rules.push((l.to_string(), if rng.chance(1, 4) { None } else { Some(rng.below(0x8000)) }));
+    }
+    for a in (1..rules.len()).rev() {
+        let b = rng.below(a as u64 + 1) as usize;
+        rules.swap(a, b);
+    }
+    let mut init = vec![];
+    let mut regs: Vec<u32> = vec![19, 20, 21, 22, 23, 28, 29, 30, 31];
+    for _ in 0..rng.below(5) {
+        if regs.is_empty() {
+            break;
+        }
+        let r = regs.swap_remove(rng.below(regs.len() as u64) as usize);
+        init.push((r, rng.below(1000), rng.chance(3, 4)));
+    }
+    init.sort();
+    CfiCase { init, rules, sh: rng.below(1 << 32) }
+}
 
 impl Engine for Det {
     fn name(&self) -> &'static str {
         "det"
     }
     fn rule(&self) -> String {
-        "not implemented".into()
+        "kind run: a generated ARM64/Linux (dump, symbols) pair (minidump-synth: 2-8 modules incl. same-leaf paths in 1/3 of the pairs — half of them with different symbol outcomes —, 2-6 threads (31+ in 1/40) walking 2-6 frames through the shared modules by STACK CFI with aliased labels fp:/x29: in 3/4, a /proc/limits stream with 8-18 limits in 9/10, optional exception stream, three option sets) processed runs x schedules x executors times in-process (fresh Symbolizer and hash seeds each; executors B poll-to-completion, R randomised releases + spurious polls, T multi-thread tokio with suspensions in spawned tasks); the four report byte strings of every run are compared with the base run; the model request is built from the REAL iteration orders / completion order of the base run. kind cfi: walk_with_stack_cfi called directly on generated rule maps (0-12 labels incl. aliases fp/x29, lr/x30, unknown names, failing rules, shadowed delta rules) with a twin of CfiStackWalker on the real CONTEXT_ARM64. non-trivial = (run) >= 4 runs compared and some thread was unwound beyond its context frame, (cfi) >= 2 rules; distinct = distinct case line".into()
     }
-    fn generate(&self, _tier: Tier, _rng: &mut Rng, _emit: &mut dyn FnMut(String)) {}
-    fn exec(&self, _case: &str) -> ImplResult {
-        ImplResult::default()
+
+    fn exhaustive_part(&self) -> Option<String> {
+        Some("kind cfi: all 256 rule maps over the aliased labels {fp, x29, lr, x30} with outcome {absent, 5, 6, evaluation fails} each, x 3 initial caller states, each map called 8 times (fresh HashMap, 3 renderings) and compared with walkRest arm64".into())
     }
+
+    fn generate(&self, tier: Tier, rng: &mut Rng, emit: &mut dyn FnMut(String)) {
+        let quick = tier == Tier::Quick;
+        let n_run = if quick { 2400 } else { 40_000 };
+        let n_cfi = if quick { 20_000 } else { 400_000 };
+        for i in 0..n_run {
+            emit(render_run(&gen_run(rng, i, tier)));
+        }
+        // exhaustive: every rule map over the aliased labels fp/x29/lr/x30 with outcomes
+        // {absent, 5, 6, fails} x three initial caller states
+        for code in 0..256u32 {
+            for init in [vec![], vec![(29u32, 7u64, true)], vec![(29, 7, false), (30, 9, true)]] {
+                let mut rules = vec![];
+                for (k, l) in ["fp", "x29", "lr", "x30"].iter().enumerate() {
+                    match (code >> (2 * k)) & 3 {
+                        0 => {}
+                        1 => rules.push((l.to_string(), Some(5))),
+                        2 => rules.push((l.to_string(), Some(6))),
+                        _ => rules.push((l.to_string(), None)),
+                    }
+                }
+                emit(render_cfi(&CfiCase { init, rules, sh: code as u64 }));
+            }
+        }
+        for _ in 0..n_cfi {
+            emit(render_cfi(&gen_cfi(rng)));
+        }
+        // the repository's own dumps and symbols (x86 Windows with STACK WIN, Linux, macOS with inlines)
+        let n_file = if quick { 60 } else { 1500 };
+        for i in 0..n_file {
+            emit(render_file(&FileCase {
+                name: FILE_DUMPS[i % FILE_DUMPS.len()].to_string(),
+                feat: ((i / FILE_DUMPS.len()) % 3) as u32,
+                k: rng.range(0, 5) as u32,
+                runs: 4,
+                execs: match i % 4 {
+                    0 => "BRT",
+                    1 => "BR",
+                    2 => "BT",
+                    _ => "B",
+                }
+                .to_string(),
+                rs: rng.below(1 << 32),
+            }));
+        }
+    }
+
+    fn exec(&self, case: &str) -> ImplResult {
+        LAST.with(|l| *l.borrow_mut() = None);
+        match parse_case(case) {
+            None => ImplResult { out: "bad-op".into(), ..Default::default() },
+            Some(Case::Cfi(c)) => exec_cfi(&c),
+            Some(Case::File(c)) => match catch(|| exec_file(&c)) {
+                Ok(r) => r,
+                Err(msg) => ImplResult {
+                    out: "PANIC".into(),
+                    oracle: vec![("panic".into(), msg)],
+                    ..Default::default()
+                },
+            },
+            Some(Case::Run(c)) => match catch(|| exec_run(&c)) {
+                Ok(r) => r,
+                Err(msg) => ImplResult {
+                    out: "PANIC".into(),
+                    oracle: vec![("panic".into(), msg)],
+                    ..Default::default()
+                },
+            },
+        }
+    }
+
+    fn model_request(&self, case: &str) -> Option<String> {
+        match parse_case(case) {
+            None => Some(case.to_string()),
+            // oracle only: no model of whole real-world dumps
+            Some(Case::File(_)) => None,
+            Some(Case::Cfi(c)) => {
+                // the model gets the rule MAP (labels and outcomes); how the rules were spread over
+                // records is the engine's business
+                let r = render_cfi(&c);
+                Some(r.rsplit_once(" sh:").map(|(a, _)| a.to_string()).unwrap_or(r))
+            }
+            Some(Case::Run(c)) => {
+                let key = render_run(&c);
+                LAST.with(|l| match &*l.borrow() {
+                    Some((k, req)) if *k == key => Some(req.clone()),
+                    _ => None,
+                })
+            }
+        }
+    }
+
+    fn shrink(&self, case: &str, still_fails: &dyn Fn(&str) -> bool) -> String {
+        match parse_case(case) {
+            Some(Case::Run(c)) => shrink_run(c, still_fails),
+            Some(Case::Cfi(c)) => shrink_cfi(c, still_fails),
+            Some(Case::File(mut c)) => {
+                for x in ['T', 'R'] {
+                    if c.execs.contains(x) {
+                        let mut d = c.clone();
+                        d.execs = d.execs.replace(x, "");
+                        if d.execs.is_empty() {
+                            d.execs = "B".into();
+                        }
+                        let s = render_file(&d);
+                        if (0..3).any(|_| still_fails(&s)) {
+                            c = d;
+                        }
+                    }
+                }
+                render_file(&c)
+            }
+            None => case.to_string(),
+        }
+    }
+}
+
+fn shrink_cfi(mut c: CfiCase, still_fails: &dyn Fn(&str) -> bool) -> String {
+    let mut progress = true;
+    while progress {
+        progress = false;
+        let mut i = 0;
+        while i < c.rules.len() {
+            let mut d = c.clone();
+            d.rules.remove(i);
+            if still_fails(&render_cfi(&d)) {
+                c = d;
+                progress = true;
+            } else {
+                i += 1;
+            }
+        }
+        let mut i = 0;
+        while i < c.init.len() {
+            let mut d = c.clone();
+            d.init.remove(i);
+            if still_fails(&render_cfi(&d)) {
+                c = d;
+                progress = true;
+            } else {
+                i += 1;
+            }
+        }
+    }
+    render_cfi(&c)
+}
+
+fn shrink_run(mut c: RunCase, still_fails: &dyn Fn(&str) -> bool) -> String {
+    // a flaky (hash-seed dependent) failure must be given several chances
+    let fails = |c: &RunCase| -> bool {
+        let s = render_run(c);
+        (0..3).any(|_| still_fails(&s))
+    };
+    let mut progress = true;
+    let mut rounds = 0;
+    while progress && rounds < 6 {
+        progress = false;
+        rounds += 1;
+        // fewer executors
+        for x in ['T', 'R'] {
+            if c.execs.contains(x) {
+                let mut d = c.clone();
+                d.execs = d.execs.replace(x, "");
+                if d.execs.is_empty() {
+                    d.execs = "B".into();
+                }
+                if fails(&d) {
+                    c = d;
+                    progress = true;
+                }
+            }
+        }
+        // fewer schedules (keep the base)
+        let mut i = 1;
+        while i < c.sched.len() {
+            let mut d = c.clone();
+            d.sched.remove(i);
+            if fails(&d) {
+                c = d;
+                progress = true;
+            } else {
+                i += 1;
+            }
+        }
+        // fewer threads
+        let mut i = 0;
+        while c.thr.len() > 1 && i < c.thr.len() {
+            let mut d = c.clone();
+            d.thr.remove(i);
+            if fails(&d) {
+                c = d;
+                progress = true;
+            } else {
+                i += 1;
+            }
+        }
+        // shorter chains
+        for t in 0..c.thr.len() {
+            while c.thr[t].len() > 1 {
+                let mut d = c.clone();
+                d.thr[t].pop();
+                if fails(&d) {
+                    c = d;
+                    progress = true;
+                } else {
+                    break;
+                }
+            }
+        }
+        // drop modules no chain mentions
+        let mut m = 0;
+        while c.mods.len() > 1 && m < c.mods.len() {
+            if c.thr.iter().flatten().any(|x| *x == m) {
+                m += 1;
+                continue;
+            }
+            let mut d = c.clone();
+            d.mods.remove(m);
+            d.cv.remove(m);
+            for t in d.thr.iter_mut() {
+                for x in t.iter_mut() {
+                    if *x > m {
+                        *x -= 1;
+                    }
+                }
+            }
+            for s in d.sched.iter_mut() {
+                s.remove(m);
+            }
+            if fails(&d) {
+                c = d;
+                progress = true;
+            } else {
+                m += 1;
+            }
+        }
+        // simpler knobs
+        for (f, v) in [("exc", 0u32), ("feat", 0), ("alias", 0), ("lim", 0), ("lim", 2), ("lim", 8)] {
+            let mut d = c.clone();
+            match f {
+                "exc" => d.exc = false,
+                "feat" => d.feat = v,
+                "alias" => d.alias = v,
+                _ => d.lim_n = v,
+            }
+            if render_run(&d) != render_run(&c) && (f != "lim" || v < c.lim_n) && fails(&d) {
+                c = d;
+                progress = true;
+            }
+        }
+        // smaller delays
+        for s in 0..c.sched.len() {
+            for m in 0..c.sched[s].len() {
+                while c.sched[s][m] > 0 {
+                    let mut d = c.clone();
+                    d.sched[s][m] -= 1;
+                    if fails(&d) {
+                        c = d;
+                        progress = true;
+                    } else {
+                        break;
+                    }
+                }
+            }
+        }
+    }
+    render_run(&c)
 }
